@@ -17,7 +17,7 @@ PROPERTY = "C04"
 DRIVERS = {"tlo:": "TraitsVerif/Driver/Seq.lean", "nl:": "TraitsVerif/Driver/Nested.lean",
            "og:": "TraitsVerif/Driver/ObjGate.lean"}
 PROPS_MODULES = ["TraitsVerif.Props.C04"]
-TRANSLATORS = ["mutators", "lenguard", "pyl", "pylobj", "ctorcopy", "pylmap", "dictevent"]
+TRANSLATORS = ["mutators", "lenguard", "pyl", "pylobj", "ctorcopy", "ctorprog", "pylmap", "dictevent"]
 RULE = ("List(T, minlen, maxlen) traits on real HasTraits objects: exhaustive single mutator calls on lists of "
         "length 0..3 for (minlen, maxlen) in a grid, plus seeded random histories (all mutators, whole-value "
         "assignment, valid / coercible / invalid items) compared with the Lean model; a second stream of "
